@@ -51,9 +51,9 @@ Result == Is("rresult") /\ UNCHANGED <<cs, F, pred>>
        /\ ((cs.tail = "cut" /\ cs.at >= cs.newlen) => cs.term = "EOF")     \* an intact log ends cleanly
      ELSE
        LET c == DamagedChunk IN
-       /\ cs.recs = Upto(Len(cs.recs))
+       /\ cs.recs = Upto(c.rec - 1)                                       \* everything before the damage is returned
        /\ \A id \in SeqToSet(cs.recs) : id < c.rec                         \* a damaged chunk is never returned
-       /\ (LaterProof(F, c, CEnd(c) - 1) => TermClass(cs.term) = "CORR")   \* synced damage is reported
+       /\ (LaterProof(F, c, MustBound(c)) => TermClass(cs.term) = "CORR")  \* synced damage is reported
        /\ (~LaterProof(F, c, c.off) => cs.term = "UEOF")                   \* unsynced damage: end of log
        /\ cs.term \in {"UEOF", "INV", "ZERO"}
 
